@@ -63,7 +63,7 @@ Accept(e) ==
 
 \* pid (declared by Pid.tla) carries the result of the last validated PidOp addition
 Init == l = 1 /\ pid = 1
-Next == /\ l <= Len(Rec) /\ Accept(Rec[l]) /\ l' = l + 1
+Next == /\ l <= Len(Rec) /\ (Accept(Rec[l]) = TRUE) /\ l' = l + 1
         /\ pid' = IF Rec[l].ev = "PidOp" THEN Rec[l].add ELSE pid
 Spec == Init /\ [][Next]_<<l, pid>>
 =============================================================================
